@@ -117,7 +117,9 @@ CLAIMED.update({
         "text": "Theorems for EVERY integer microsecond count (no range bound): Timestamp nanos in [0, 1e9), (seconds, nanos) denote exactly the instant and are the unique normalised pair (= what the reference "
                 "produces), decode gives back the identical value, foreign nanosecond values are truncated to the microsecond below; Duration seconds and nanos never of opposite sign, |nanos| < 1e9, exact, unique, "
                 "identical after decode (incl. Python's half-even rounding of a float microseconds argument); JSON fractions have 0/3/6 digits (Timestamp) or 3/6 digits (Duration), are exact, and read back to the "
-                "identical value. Aware datetimes enter only through dt - DATETIME_ZERO, which is time-zone independent.",
+                "identical value. Aware datetimes enter only through dt - DATETIME_ZERO, which is time-zone independent. "
+                "TIED TO THE SOURCE BY TRANSLATION (Props/C15Src): _Duration.from_timedelta / to_timedelta / delta_to_json and _Timestamp.from_datetime / to_datetime / timestamp_to_json (fraction digits) "
+                "are re-translated from the Python AST on every run (harness/extract_srctime.py) and proved equal to the model functions for every integer, so the theorems hold of the methods as written.",
         "note": TB + "datetime/timedelta are modelled as integer microseconds; isoformat/isoparse at whole seconds, Decimal parsing and the datetime range checks are exercised by the correspondence and the reference comparison, not proved.",
         "technique": "Lean 4 proof (linear integer arithmetic, omega) + differential correspondence + comparison with google.protobuf FromDatetime/FromTimedelta/JSON",
         "design_ref": "DESIGN.md §7 C15",
